@@ -13,7 +13,7 @@ FIL = 'tracklib.algo.filtering'
 EXPLANATION = (
     "Static analysis by interpretation of the source (nothing imported or executed by CPython): outputs must equal the weighted mean over the in-track non-NaN samples of the window (weight j with sample i + D - j), with unfiltered boundaries copied; kernel windows must be odd, symmetric, non-negative and sum to 1; filtering into the input feature must give the same values; an even kernel must be rejected; filter_seq must leave the smoothed coordinates in the track it was given, honouring the kernel's boundary flag.")
 ASSUMPTIONS = ["non-negative weights (precondition of the range clause)"]
-TECHNIQUE = "abstract interpretation of Filter.execute, the Kernel classes (toSlidingWindow) and filter_seq by the checker's AST interpreter on signal / kernel configurations (lists and nine built-in kernels, both boundary settings, NaN patterns, in-place output, even kernels), against the renormalised weighted mean computed by the checker (bounded case domain)"
+TECHNIQUE = "abstract interpretation of Filter.execute, the Kernel classes (toSlidingWindow) and filter_seq by the checker's AST interpreter on signal / kernel configurations (lists and nine built-in kernels, both boundary settings, NaN patterns, in-place output, even kernels, NaN samples held as numpy scalars, a history of filter_seq calls with the default dimensions), against the renormalised weighted mean computed by the checker (bounded case domain)"
 
 
 def vr(v):
